@@ -29,17 +29,17 @@ SERVER_NAME = "verif.example"
 CLIENT_ADDR = ("10.9.8.7", 4321)
 
 HANDLERS_DEFAULT = None  # the shipped list
+# the "full featureset" list of the sample configuration, in its order, plus the ZIP handler
 HANDLERS_FULL = (
     "[url.HTMLURLHandler, gophermap.BuckGophermapHandler, "
     "mbox.MaildirFolderHandler, mbox.MaildirMessageHandler, "
-    "UMN.UMNDirHandler, html.HTMLFileTitleHandler, "
+    "UMN.UMNDirHandler, tal.TALFileHandler, html.HTMLFileTitleHandler, "
     "mbox.MBoxMessageHandler, mbox.MBoxFolderHandler, "
-    "pyg.PYGHandler, scriptexec.ExecHandler, tal.TALFileHandler, "
-    "file.CompressedFileHandler, ZIP.ZIPHandler, file.FileHandler]"
+    "pyg.PYGHandler, scriptexec.ExecHandler, ZIP.ZIPHandler, "
+    "file.CompressedFileHandler, file.FileHandler]"
 )
-# full list plus the type-prefix rewriter (documented in the sample config)
-HANDLERS_FULL_REWRITE = HANDLERS_FULL.replace(
-    "[url.HTMLURLHandler,", "[url.HTMLURLHandler, url.URLTypeRewriter,")
+# ... and with the type-prefix rewriter where the sample configuration puts it: last
+HANDLERS_FULL_REWRITE = HANDLERS_FULL.replace("file.FileHandler]", "file.FileHandler, url.URLTypeRewriter]")
 HANDLERS_PLAINDIR = (
     "[url.HTMLURLHandler, gophermap.BuckGophermapHandler, dir.DirHandler, "
     "html.HTMLFileTitleHandler, file.FileHandler]"
